@@ -216,6 +216,13 @@ def showLossyRel (r : Except String Lossy.Relation) : String :=
 /-- a tree: its text and dump -/
 def showTree (t : RNode) : String := s!"ok {encStr t.text} {dump t}"
 
+/-- the whole `rel.lrel` answer for one lossy value (also the tail of `lrel.build`, Driver/RelLossyBuild) -/
+def lrelResp (r : Lossy.Relation) : String :=
+  let printed := Lossy.showRelation r
+  let ll := Build.toLossless r
+  let bk := match Build.toLossy ll with | .ok x => "ok " ++ encLossyRel x | .panic _ => "PANIC"
+  s!"P:{encStr printed} RT:{showLossyRel (Lossy.readRelation printed)} LL:{showTree ll} BK:{bk} LV:{losslessView printed false} valid={encBool (RelSpec.validRS r)}"
+
 def handle (op : String) (args : List String) : Option String :=
   match op, args with
   | "rel.read", [allow, t] => do
@@ -244,12 +251,7 @@ def handle (op : String) (args : List String) : Option String :=
     let trig := c10Triggers f
     let suffix := if trig.isEmpty || !f.ok then "" else "\t!" ++ ",".intercalate trig
     pure (s!"{encStr text} W[E[{encEntries f.view}] S[{encList f.substvars}]] T1:{losslessView text true} T0:{losslessView text false} L:{lossyView text} {specVerdict f}" ++ suffix)
-  | "rel.lrel", [h] => do
-    let r ← decLossyRel h
-    let printed := Lossy.showRelation r
-    let ll := Build.toLossless r
-    let bk := match Build.toLossy ll with | .ok x => "ok " ++ encLossyRel x | .panic _ => "PANIC"
-    pure s!"P:{encStr printed} RT:{showLossyRel (Lossy.readRelation printed)} LL:{showTree ll} BK:{bk} LV:{losslessView printed false} valid={encBool (RelSpec.validRS r)}"
+  | "rel.lrel", [h] => do pure (lrelResp (← decLossyRel h))
   | "rel.lrels", [h] => do
     let rs ← decLossyRels h
     let printed := Lossy.showRelations rs
